@@ -46,14 +46,27 @@ func sweepLocks(c *Ctx, cs *vc.Contracts, opt vc.Options) {
 	var roots []*ssa.Function
 	for _, n := range names {
 		fn := c.P.Funcs[n]
-		if !pkgs[pkgShort(fn)] || len(fn.Blocks) == 0 || fn.Parent() != nil || !vc.TakesSyncLock(fn) || cs.ByFunc[n] != nil {
+		if !pkgs[pkgShort(fn)] || len(fn.Blocks) == 0 || fn.Parent() != nil || !vc.TakesSyncLock(fn) {
 			continue
 		}
-		roots = append(roots, fn)
-	}
-	for _, fn := range roots {
-		n := vc.FuncName(fn)
+		if ct := cs.ByFunc[n]; ct != nil {
+			// a function with a contract of its own (for another property) is held to the lock balance as well;
+			// one that is tagged C17 has been verified by runContracts already
+			tagged := false
+			for _, p := range ct.Props {
+				if p == "C17" {
+					tagged = true
+				}
+			}
+			if tagged || ct.Options["trace"] || ct.Options["forward-exits"] || ct.Options["eval-once"] {
+				continue
+			}
+			ct.Options["lock-balance"] = true
+			roots = append(roots, fn)
+			continue
+		}
 		cs.ByFunc[n] = &vc.Contract{Func: n, Loops: map[string][]*vc.Clause{}, Options: map[string]bool{"lock-balance": true}, Props: []string{"C17"}}
+		roots = append(roots, fn)
 	}
 	o := opt
 	o.Contracts = cs
